@@ -142,25 +142,37 @@ macro_rules! impl_metadata_value_trait {
         impl MetadataValue for $non_atomic {
             unsafe fn load(addr: Address) -> Self {
                 #[cfg(mmtk_verif)]
-                crate::util::verif::rt::yield_point(crate::util::verif::rt::site::RAW_LOAD);
+                crate::util::verif::rt::yield_point_at(
+                    crate::util::verif::rt::site::RAW_LOAD,
+                    addr.as_usize(),
+                );
                 addr.load::<$non_atomic>()
             }
 
             unsafe fn load_atomic(addr: Address, order: Ordering) -> Self {
                 #[cfg(mmtk_verif)]
-                crate::util::verif::rt::yield_point(crate::util::verif::rt::site::RAW_LOAD);
+                crate::util::verif::rt::yield_point_at(
+                    crate::util::verif::rt::site::RAW_LOAD,
+                    addr.as_usize(),
+                );
                 addr.as_ref::<$atomic>().load(order)
             }
 
             unsafe fn store(addr: Address, value: Self) {
                 #[cfg(mmtk_verif)]
-                crate::util::verif::rt::yield_point(crate::util::verif::rt::site::RAW_STORE);
+                crate::util::verif::rt::yield_point_at(
+                    crate::util::verif::rt::site::RAW_STORE,
+                    addr.as_usize(),
+                );
                 addr.store::<$non_atomic>(value)
             }
 
             unsafe fn store_atomic(addr: Address, value: Self, order: Ordering) {
                 #[cfg(mmtk_verif)]
-                crate::util::verif::rt::yield_point(crate::util::verif::rt::site::RAW_STORE);
+                crate::util::verif::rt::yield_point_at(
+                    crate::util::verif::rt::site::RAW_STORE,
+                    addr.as_usize(),
+                );
                 addr.as_ref::<$atomic>().store(value, order)
             }
 
@@ -172,32 +184,47 @@ macro_rules! impl_metadata_value_trait {
                 failure: Ordering,
             ) -> Result<Self, Self> {
                 #[cfg(mmtk_verif)]
-                crate::util::verif::rt::yield_point(crate::util::verif::rt::site::RAW_CAS);
+                crate::util::verif::rt::yield_point_at(
+                    crate::util::verif::rt::site::RAW_CAS,
+                    addr.as_usize(),
+                );
                 addr.as_ref::<$atomic>()
                     .compare_exchange(current, new, success, failure)
             }
 
             unsafe fn fetch_add(addr: Address, value: Self, order: Ordering) -> Self {
                 #[cfg(mmtk_verif)]
-                crate::util::verif::rt::yield_point(crate::util::verif::rt::site::RAW_FETCH);
+                crate::util::verif::rt::yield_point_at(
+                    crate::util::verif::rt::site::RAW_FETCH,
+                    addr.as_usize(),
+                );
                 addr.as_ref::<$atomic>().fetch_add(value, order)
             }
 
             unsafe fn fetch_sub(addr: Address, value: Self, order: Ordering) -> Self {
                 #[cfg(mmtk_verif)]
-                crate::util::verif::rt::yield_point(crate::util::verif::rt::site::RAW_FETCH);
+                crate::util::verif::rt::yield_point_at(
+                    crate::util::verif::rt::site::RAW_FETCH,
+                    addr.as_usize(),
+                );
                 addr.as_ref::<$atomic>().fetch_sub(value, order)
             }
 
             unsafe fn fetch_and(addr: Address, value: Self, order: Ordering) -> Self {
                 #[cfg(mmtk_verif)]
-                crate::util::verif::rt::yield_point(crate::util::verif::rt::site::RAW_FETCH);
+                crate::util::verif::rt::yield_point_at(
+                    crate::util::verif::rt::site::RAW_FETCH,
+                    addr.as_usize(),
+                );
                 addr.as_ref::<$atomic>().fetch_and(value, order)
             }
 
             unsafe fn fetch_or(addr: Address, value: Self, order: Ordering) -> Self {
                 #[cfg(mmtk_verif)]
-                crate::util::verif::rt::yield_point(crate::util::verif::rt::site::RAW_FETCH);
+                crate::util::verif::rt::yield_point_at(
+                    crate::util::verif::rt::site::RAW_FETCH,
+                    addr.as_usize(),
+                );
                 addr.as_ref::<$atomic>().fetch_or(value, order)
             }
 
@@ -211,7 +238,10 @@ macro_rules! impl_metadata_value_trait {
                 F: FnMut(Self) -> Option<Self>,
             {
                 #[cfg(mmtk_verif)]
-                crate::util::verif::rt::yield_point(crate::util::verif::rt::site::RAW_FETCH);
+                crate::util::verif::rt::yield_point_at(
+                    crate::util::verif::rt::site::RAW_FETCH,
+                    addr.as_usize(),
+                );
                 addr.as_ref::<$atomic>()
                     .fetch_update(set_order, fetch_order, f)
             }
